@@ -184,10 +184,9 @@ func buildWorld(seed uint64) (w *world, err error) {
 
 	w.sm2A, w.sm2B, w.sm2C = sm2Key(scalarA), sm2Key(scalarB), sm2Key(scalarC)
 	w.ecdsaP256 = ecKey(elliptic.P256(), scalarD)
-	w.nistP256, err = new(sm2.PrivateKey).FromECPrivateKey(ecKey(elliptic.P256(), scalarC))
-	must("legacy P-256 key", err)
-	w.nistP521, err = new(sm2.PrivateKey).FromECPrivateKey(ecKey(elliptic.P521(), scalarC))
-	must("legacy P-521 key", err)
+	// sm2.PrivateKey over a NIST curve (the embedded ecdsa key is assigned, as the package's own tests do)
+	w.nistP256 = &sm2.PrivateKey{PrivateKey: *ecKey(elliptic.P256(), scalarC)}
+	w.nistP521 = &sm2.PrivateKey{PrivateKey: *ecKey(elliptic.P521(), scalarC)}
 	w.rsa1, w.rsa2 = rsaKey(rsa1024PEM), rsaKey(rsa2048PEM)
 
 	w.buildSM2()
@@ -658,7 +657,11 @@ func (w *world) buildSM9() {
 	must("sm9 key package", err)
 	w.addRaw("sm9.wrap.fromPackage", cipher)
 	// the DER form UnwrapKey(uid, cipherDer) expects: BIT STRING of the point
-	bs, err := asn1.Marshal(asn1.BitString{Bytes: append([]byte{4}, wrapped...), BitLength: 8 * 65})
+	pt := wrapped
+	if len(pt) == 64 {
+		pt = append([]byte{4}, pt...)
+	}
+	bs, err := asn1.Marshal(asn1.BitString{Bytes: pt, BitLength: 8 * len(pt)})
 	must("sm9 wrap der", err)
 	w.add("sm9.wrap.der", bs)
 
